@@ -254,7 +254,9 @@ func (u *Unit) enterLoopHead(st *State, fr *Frame, head *ssa.BasicBlock, li *loo
 		}
 		u.work = saved
 	}
-	// havoc
+	// havoc (earlier iterations may have allocated: the typing of the havocked values refers to
+	// the allocation counter after the bump)
+	u.bumpAlloc(st)
 	var wlocals []*ssa.Alloc
 	for a := range ws.locals {
 		wlocals = append(wlocals, a)
